@@ -994,12 +994,21 @@ impl Live {
 
     /// lets every task run until nothing moves any more
     async fn pump(&mut self) {
+        // with instant delivery and honest leaders the cluster never gets quiet (it commits block
+        // after block without time passing): the network carries at most 4 * N messages per pump,
+        // the rest stays in flight until the next one
         let mut idle = 0;
+        let mut total = 0;
         for _ in 0..20000 {
             for _ in 0..20 {
                 tokio::task::yield_now().await;
             }
-            if self.forward() > 0 {
+            if total > 4 * self.nodes.len() {
+                break;
+            }
+            let moved = self.forward();
+            total += moved;
+            if moved > 0 {
                 idle = 0;
             } else {
                 idle += 1;
